@@ -231,6 +231,10 @@ def run(ctx):
     from .. import chmapfix
     if chmapfix.run(ctx, quick):
         found = True
+    # ---- F: the failure-value table of sf_command on handles that cannot serve the command (vlib/cmdfail.py, Sf.CmdFail) ----
+    from .. import cmdfail
+    if cmdfail.run(ctx, quick):
+        found = True
     corr = [x for x in fa if x.kind == "corr"]
     if corr and not found:
         x = corr[0]
